@@ -104,6 +104,9 @@ func C16(c *core.Ctx) {
 		if c.Tier != "thorough" && i%2 == 1 {
 			continue
 		}
+		if mb.mayFail {
+			continue // the generator may refuse this member: nothing to compare
+		}
 		runPair(c, mb.name, mb.root, d, only, func(fa, fb *fam.FileModel) []fam.Issue {
 			return fam.RelOnlyModels(fa.Normalize(), fb.Normalize())
 		})
